@@ -200,6 +200,8 @@ class GQueue(queue_mod.Queue):
 
     def put(self, item, *a, **k):
         ctl.gate("q.put")
+        if item is R.DONE and threading.current_thread() is threading.main_thread():
+            ev("main_put_done")
         return super().put(item, *a, **k)
 
     def task_done(self):
@@ -402,6 +404,7 @@ def evaluate():
     anc = lambda n: {a for (a, b) in reach if b == n}  # noqa: E731
     ok, failed, started, inflight, maxin = set(), set(), collections.Counter(), 0, 0
     interrupted = False
+    shutdown = False  # the coordinator has put its first DONE sentinel after the interrupt
     returned = False
     first_fail = None
     for e in EVENTS:
@@ -418,7 +421,7 @@ def evaluate():
             maxin = max(maxin, inflight)
             if inflight > W:
                 bad.append("c10_inflight_gt_w")
-            if interrupted:
+            if shutdown:
                 bad.append("c17_start_after_interrupt")
             if returned:
                 bad.append("c07_start_after_return")
@@ -434,6 +437,8 @@ def evaluate():
                 bad.append("c07_running_after_return")
         elif e[0] == "interrupt":
             interrupted = True
+        elif e[0] == "main_put_done":
+            shutdown = shutdown or interrupted
         elif e[0] == "main_end":
             returned = True
             alive = [t for t in threading.enumerate() if t.name.startswith("W")]
@@ -458,7 +463,10 @@ def evaluate():
         if interrupted and not kbi:
             bad.append("c17_interrupt_masked")
         if not kbi:
-            if not anyfail:
+            cyclic_rejected = type(exc).__name__ == "HasACycle" and any((a, a) in reach for a in range(N)) and not started
+            if cyclic_rejected:
+                pass  # C07: a cyclic graph is reported up front, before anything ran
+            elif not anyfail:
                 bad.append("c06_spurious_error")
             else:
                 good = isinstance(exc, NodeError) and exc.node in failed and exc.__cause__ is RAISED.get(exc.node)
